@@ -3,6 +3,7 @@ CONSTANTS
   Reqs = {1, 2, 3}
   MaxTag = 6
   FixRelease = TRUE
+  FixSent = TRUE
   MaxStray = 2
 INVARIANT NoViolation
 INVARIANT PoolSane
